@@ -19,7 +19,10 @@ The spaces are finite tables and are enumerated completely:
              the range the material states for that very property, through both calling conventions
              (Tc= and Tk=), which must agree.
 
-A *case* names the part (and the material); ``evaluate(case)`` re-runs that part.
+  mathistory every class x all short histories of composition mutators / instantiate / duplicate:
+             instances never share mutable state (see the part's header); run as a second phase.
+
+A *case* names the part (and the material / the history); ``evaluate(case)`` re-runs that part.
 """
 import math
 import os
